@@ -25,18 +25,43 @@ class _Abort(BaseException):
     pass
 
 
-class InstrLock(object):
-    """stands for threading.Lock (binary semaphore without owner)"""
+class _Ctl(object):
+    """base of the controlled stand-ins for threading primitives.  A thread that
+    cannot proceed reports ("blocked", primitive, still_blocked) to the scheduler
+    and is only resumed when still_blocked() is false."""
 
     def __init__(self, run):
         self.run = run
+
+    def _me(self):
+        return self.run.tid_of.get(_thread.get_ident())
+
+    def _wait_while(self, cond, blocking=True):
+        while cond():
+            if not blocking:
+                return False
+            self.run._blocked_on(self, cond)
+        return True
+
+    def __enter__(self):
+        self.acquire()
+        return self
+
+    def __exit__(self, *a):
+        self.release()
+
+
+class InstrLock(_Ctl):
+    """threading.Lock: binary semaphore without owner"""
+    kind = "Lock"
+
+    def __init__(self, run):
+        _Ctl.__init__(self, run)
         self.held = False
 
     def acquire(self, blocking=True, timeout=-1):
-        while self.held:
-            if not blocking:
-                return False
-            self.run._blocked_on(self)
+        if not self._wait_while(lambda: self.held, blocking):
+            return False
         self.held = True
         return True
 
@@ -48,20 +73,186 @@ class InstrLock(object):
     def locked(self):
         return self.held
 
-    __enter__ = acquire
+    def state(self):
+        return self.held
+
+
+class CtlRLock(_Ctl):
+    """threading.RLock: owner + recursion count; only the owner may release"""
+    kind = "RLock"
+
+    def __init__(self, run):
+        _Ctl.__init__(self, run)
+        self.owner = None
+        self.count = 0
+
+    @property
+    def held(self):
+        return self.count > 0
+
+    def acquire(self, blocking=True, timeout=-1):
+        me = self._me()
+        if self.count and self.owner == me:
+            self.count += 1
+            return True
+        if not self._wait_while(lambda: self.count > 0, blocking):
+            return False
+        self.owner, self.count = me, 1
+        return True
+
+    def release(self):
+        if self.count == 0 or self.owner != self._me():
+            raise RuntimeError("cannot release un-acquired lock")
+        self.count -= 1
+        if self.count == 0:
+            self.owner = None
+
+    def locked(self):
+        return self.count > 0
+
+    def _is_owned(self):
+        return self.count > 0 and self.owner == self._me()
+
+    def state(self):
+        return ("RLock", self.owner, self.count)
+
+
+class CtlSemaphore(_Ctl):
+    kind = "Semaphore"
+
+    def __init__(self, run, value=1, bound=None):
+        _Ctl.__init__(self, run)
+        if value < 0:
+            raise ValueError("semaphore initial value must be >= 0")
+        self.value = value
+        self.bound = bound
+
+    @property
+    def held(self):
+        return self.value == 0
+
+    def acquire(self, blocking=True, timeout=None):
+        if not self._wait_while(lambda: self.value == 0, blocking):
+            return False
+        self.value -= 1
+        return True
+
+    def release(self, n=1):
+        if self.bound is not None and self.value + n > self.bound:
+            raise ValueError("Semaphore released too many times")
+        self.value += n
+
+    def state(self):
+        return ("Semaphore", self.value)
+
+
+class CtlEvent(_Ctl):
+    kind = "Event"
+
+    def __init__(self, run):
+        _Ctl.__init__(self, run)
+        self.flag = False
+    held = False
+
+    def is_set(self):
+        return self.flag
+
+    def set(self):
+        self.flag = True
+
+    def clear(self):
+        self.flag = False
+
+    def wait(self, timeout=None):
+        self._wait_while(lambda: not self.flag)
+        return True
+
+    def state(self):
+        return ("Event", self.flag)
+
+
+class CtlCondition(_Ctl):
+    kind = "Condition"
+
+    def __init__(self, run, lock=None):
+        _Ctl.__init__(self, run)
+        self.lock = lock if lock is not None else CtlRLock(run)
+        self.waiters = []          # tickets of waiting threads
+        self.woken = set()
+        self.acquire = self.lock.acquire
+        self.release = self.lock.release
+    held = False
+
+    def __enter__(self):
+        self.lock.acquire()
+        return self
 
     def __exit__(self, *a):
-        self.release()
+        self.lock.release()
+
+    def wait(self, timeout=None):
+        me = self._me()
+        saved = None
+        if isinstance(self.lock, CtlRLock):
+            if not self.lock._is_owned():
+                raise RuntimeError("cannot wait on un-acquired lock")
+            saved = self.lock.count
+            self.lock.count, self.lock.owner = 0, None
+        else:
+            self.lock.release()
+        self.waiters.append(me)
+        self._wait_while(lambda: me not in self.woken)
+        self.woken.discard(me)
+        if saved is not None:
+            self.lock._wait_while(lambda: self.lock.count > 0)
+            self.lock.owner, self.lock.count = me, saved
+        else:
+            self.lock.acquire()
+        return True
+
+    def wait_for(self, predicate, timeout=None):
+        r = predicate()
+        while not r:
+            self.wait()
+            r = predicate()
+        return r
+
+    def notify(self, n=1):
+        for _ in range(n):
+            if self.waiters:
+                self.woken.add(self.waiters.pop(0))
+
+    def notify_all(self):
+        self.notify(len(self.waiters))
+
+    def state(self):
+        return ("Condition", tuple(self.waiters), tuple(sorted(self.woken, key=repr)))
 
 
 class _Shim(object):
-    """replacement for the name `threading` inside _rwlock during construction"""
+    """replacement for the name `threading` inside _rwlock during construction:
+    every primitive the class instantiates becomes its controlled equivalent"""
 
     def __init__(self, run):
         self._run = run
 
     def Lock(self):
         return InstrLock(self._run)
+
+    def RLock(self):
+        return CtlRLock(self._run)
+
+    def Semaphore(self, value=1):
+        return CtlSemaphore(self._run, value)
+
+    def BoundedSemaphore(self, value=1):
+        return CtlSemaphore(self._run, value, bound=value)
+
+    def Event(self):
+        return CtlEvent(self._run)
+
+    def Condition(self, lock=None):
+        return CtlCondition(self._run, lock)
 
     def __getattr__(self, name):
         return getattr(threading, name)
@@ -73,6 +264,29 @@ def rwmod():
 
 
 _REAL_LOCK = type(_thread.allocate_lock())
+_REAL_RLOCK = type(threading.RLock())
+
+
+def _convert(v, run):
+    """controlled equivalent of a real primitive (one created outside the shim, e.g.
+    at class-definition time), or None"""
+    if isinstance(v, _REAL_LOCK):
+        n = InstrLock(run)
+        n.held = v.locked()
+        return n
+    if isinstance(v, _REAL_RLOCK):
+        return CtlRLock(run)
+    if isinstance(v, threading.BoundedSemaphore):
+        return CtlSemaphore(run, v._value, bound=v._initial_value)
+    if isinstance(v, threading.Semaphore):
+        return CtlSemaphore(run, v._value)
+    if isinstance(v, threading.Event):
+        e = CtlEvent(run)
+        e.flag = v.is_set()
+        return e
+    if isinstance(v, threading.Condition):
+        return CtlCondition(run)
+    return None
 
 
 def _attrs(obj):
@@ -104,21 +318,22 @@ def discover(rw, run):
     by_id = {}
 
     def lock_at(holder, name, v, path):
-        if isinstance(v, InstrLock) and v.run is run:
+        if isinstance(v, _Ctl) and v.run is run:
             if id(v) not in by_id:
                 by_id[id(v)] = v
                 locks.append((path, v))
             return
-        # a real lock, or the instrumented lock of an earlier run left on a class
-        new = InstrLock(run)
-        if isinstance(v, _REAL_LOCK) and v.locked():
-            new.held = True
+        # a real primitive, or the controlled one of an earlier run left on a class
+        if isinstance(v, _Ctl):
+            new = type(v)(run) if not isinstance(v, CtlSemaphore) else CtlSemaphore(run, v.bound or 1, v.bound)
+        else:
+            new = _convert(v, run)
         setattr(holder, name, new)
         by_id[id(new)] = new
         locks.append((path, new))
 
     def is_lock(v):
-        return isinstance(v, (InstrLock, _REAL_LOCK))
+        return isinstance(v, _Ctl) or _convert(v, None) is not None
 
     mod = type(rw).__module__
     for holder, k, v in _attrs(rw):
@@ -170,6 +385,13 @@ class _Pool(object):
 
 
 _POOL = None
+
+
+def reset_pool():
+    """forget the worker threads (after a failure inside a run their hand-over state is
+    unknown; they are daemon threads and stay parked)"""
+    global _POOL
+    _POOL = None
 
 
 def pool():
@@ -245,9 +467,9 @@ class Run(object):
             return None
         return glob
 
-    def _blocked_on(self, lock):
+    def _blocked_on(self, lock, still_blocked):
         tid = self.tid_of[_thread.get_ident()]
-        self.status[tid] = ("blocked", lock)
+        self.status[tid] = ("blocked", lock, still_blocked)
         self._pause(tid)
 
     def _body(self, tid, worker):
@@ -289,14 +511,14 @@ class Run(object):
         st = self.status[tid]
         if st[0] in ("done", "exc", "aborted"):
             return st
-        if st[0] == "blocked" and st[1].held:
+        if st[0] == "blocked" and st[2]():
             return st
         self.go[tid].release()
         self._wait_ctl()
         return self.status[tid]
 
     def key(self):
-        return (tuple(l.held for _, l in self.locks),
+        return (tuple(l.state() for _, l in self.locks),
                 tuple(getattr(o, a) for _, (o, a) in self.ctrs),
                 tuple(self.pos), tuple(self.phase))
 
@@ -318,6 +540,7 @@ class Graph(object):
         self.path = []        # index -> schedule (tuple of thread ids) that first reached it
         self.trans = {}       # (index, tid) -> index | "blocked" | "done" | ("exc", text)
         self.lock_paths = None
+        self.lock_kinds = None
         self.ctr_paths = None
         self.steps = 0
         self.replays = 0
@@ -372,6 +595,7 @@ def explore(roles, loop, max_states=25000, deadline=None):
     n = len(roles)
     run = Run(roles, loop)
     g.lock_paths = [p for p, _ in run.locks]
+    g.lock_kinds = [l.kind for _, l in run.locks]
     g.ctr_paths = [p for p, _ in run.ctrs]
     cur = g.add(run.key(), ())
     todo = {0: set(range(n))}      # state -> thread ids not yet tried
@@ -440,8 +664,18 @@ def explore(roles, loop, max_states=25000, deadline=None):
                 g.pending = set(s for s, p in todo.items() if p)
                 break
             cur = new
-    finally:
-        run.abort()
+    except BaseException:
+        try:
+            run.abort()
+        except BaseException:
+            pass
+        reset_pool()
+        raise
+    else:
+        try:
+            run.abort()
+        except Exception:
+            reset_pool()
     return g
 
 
